@@ -1,11 +1,7 @@
 
-val negb : bool -> bool
-
 type nat =
 | O
 | S of nat
-
-val fst : ('a1 * 'a2) -> 'a1
 
 val snd : ('a1 * 'a2) -> 'a2
 
@@ -13,27 +9,28 @@ val length : 'a1 list -> nat
 
 val app : 'a1 list -> 'a1 list -> 'a1 list
 
-type comparison =
-| Eq
-| Lt
-| Gt
-
-val compOpp : comparison -> comparison
-
-val add : nat -> nat -> nat
-
 val sub : nat -> nat -> nat
-
-val eqb : bool -> bool -> bool
 
 module Nat :
  sig
+  val sub : nat -> nat -> nat
+
   val eqb : nat -> nat -> bool
 
-  val leb : nat -> nat -> bool
+  val divmod : nat -> nat -> nat -> nat -> nat * nat
 
-  val ltb : nat -> nat -> bool
+  val modulo : nat -> nat -> nat
  end
+
+val hd : 'a1 -> 'a1 list -> 'a1
+
+val rev : 'a1 list -> 'a1 list
+
+val flat_map : ('a1 -> 'a2 list) -> 'a1 list -> 'a2 list
+
+val fold_left : ('a1 -> 'a2 -> 'a1) -> 'a2 list -> 'a1 -> 'a1
+
+val repeat : 'a1 -> nat -> 'a1 list
 
 type positive =
 | XI of positive
@@ -44,332 +41,75 @@ type n =
 | N0
 | Npos of positive
 
-type z =
-| Z0
-| Zpos of positive
-| Zneg of positive
-
 module Pos :
  sig
-  type mask =
-  | IsNul
-  | IsPos of positive
-  | IsNeg
- end
-
-module Coq_Pos :
- sig
-  val succ : positive -> positive
-
-  val add : positive -> positive -> positive
-
-  val add_carry : positive -> positive -> positive
-
-  val pred_double : positive -> positive
-
-  type mask = Pos.mask =
-  | IsNul
-  | IsPos of positive
-  | IsNeg
-
-  val succ_double_mask : mask -> mask
-
-  val double_mask : mask -> mask
-
-  val double_pred_mask : positive -> mask
-
-  val sub_mask : positive -> positive -> mask
-
-  val sub_mask_carry : positive -> positive -> mask
-
-  val mul : positive -> positive -> positive
-
-  val size : positive -> positive
-
-  val compare_cont : comparison -> positive -> positive -> comparison
-
-  val compare : positive -> positive -> comparison
-
   val eqb : positive -> positive -> bool
-
-  val iter_op : ('a1 -> 'a1 -> 'a1) -> positive -> 'a1 -> 'a1
-
-  val to_nat : positive -> nat
  end
 
 module N :
  sig
-  val succ_double : n -> n
-
-  val double : n -> n
-
-  val add : n -> n -> n
-
-  val sub : n -> n -> n
-
-  val mul : n -> n -> n
-
-  val compare : n -> n -> comparison
-
   val eqb : n -> n -> bool
-
-  val leb : n -> n -> bool
-
-  val ltb : n -> n -> bool
-
-  val log2 : n -> n
-
-  val pos_div_eucl : positive -> n -> n * n
-
-  val div_eucl : n -> n -> n * n
-
-  val div : n -> n -> n
-
-  val modulo : n -> n -> n
-
-  val to_nat : n -> nat
  end
-
-val rev : 'a1 list -> 'a1 list
-
-val concat : 'a1 list list -> 'a1 list
-
-val map : ('a1 -> 'a2) -> 'a1 list -> 'a2 list
-
-val flat_map : ('a1 -> 'a2 list) -> 'a1 list -> 'a2 list
-
-val forallb : ('a1 -> bool) -> 'a1 list -> bool
-
-val firstn : nat -> 'a1 list -> 'a1 list
-
-val skipn : nat -> 'a1 list -> 'a1 list
-
-val repeat : 'a1 -> nat -> 'a1 list
-
-module Z :
- sig
-  val double : z -> z
-
-  val succ_double : z -> z
-
-  val pred_double : z -> z
-
-  val pos_sub : positive -> positive -> z
-
-  val add : z -> z -> z
-
-  val opp : z -> z
-
-  val mul : z -> z -> z
-
-  val compare : z -> z -> comparison
-
-  val leb : z -> z -> bool
-
-  val eqb : z -> z -> bool
-
-  val of_N : n -> z
- end
-
-type ascii =
-| Ascii of bool * bool * bool * bool * bool * bool * bool * bool
-
-val eqb0 : ascii -> ascii -> bool
-
-type string =
-| EmptyString
-| String of ascii * string
-
-val eqb1 : string -> string -> bool
 
 type bytes = n list
 
-val sp : n
-
-val zero : n
+val nine : n
 
 val bytes_eqb : bytes -> bytes -> bool
 
-val rune_error : n
+type entryS = { e_rec : bytes; e_addenda : bytes list }
 
-val cont : n -> bool
+type batchS = { b_hdr : bytes; b_entries : entryS list; b_ctl : bytes }
 
-val seq_size : n -> nat
+type fileS = { f_hdr : bytes; f_batches : batchS list; f_ctl : bytes }
 
-val second_ok : n -> n -> bool
+val entry_lines : entryS -> bytes list
 
-val chunks : bytes -> (n * bytes) list
+val batch_lines : batchS -> bytes list
 
-val runes : bytes -> n list
+val record_lines : fileS -> bytes list
 
-val rune_count : bytes -> nat
+val nines : bytes
 
-val encode_rune : n -> bytes
+val pad_count : nat -> nat
 
-val encode : n list -> bytes
+val physical_lines : fileS -> bytes list
 
-type seg =
-| SLit of bytes
-| SAlpha of string * nat
-| SNum of string * nat
-| SStr of string * nat
-| SRaw of string
-| SItoa of string
-| SCustom of string * string
-| SUnknown of string
+val rtype : bytes -> n
 
-type cut = { c_lo : nat; c_hi : nat; c_field : string; c_conv : string list;
-             c_const : bytes option }
+val t1 : n
 
-val mkcut : nat -> nat -> string -> string list -> cut
+val t5 : n
 
-val mkconst : string -> bytes -> cut
+val t6 : n
 
-type indexing =
-| IRune
-| IByte
+val t7 : n
 
-type layout = { l_name : string; l_ix : indexing; l_segs : seg list;
-                l_cuts : cut list }
+val t8 : n
 
-type value =
-| VS of bytes
-| VI of z
+val t9 : n
 
-type recval = (string * value) list
+type gstate =
+| GStart
+| GFile
+| GBatch
+| GEntry
+| GDone
+| GBad
 
-val lookup : recval -> string -> value option
+val is_filler : bytes -> bool
 
-val gets : recval -> string -> bytes
+val gstep : gstate -> bytes -> gstate
 
-val geti : recval -> string -> z
+val grammar_ok : bytes list -> bool
 
-val spaces : nat -> bytes
+val starts99 : bytes -> bool
 
-val zeros : nat -> bytes
+type rstate = { r_hdr : bytes option; r_done : batchS list;
+                r_cur : (bytes * entryS list) option; r_ctl : bytes option }
 
-val is_space : n -> bool
+val add_addenda : entryS list -> bytes -> entryS list option
 
-val drop_space : (n * bytes) list -> (n * bytes) list
+val rstep : rstate option -> bytes -> rstate option
 
-val trim : bytes -> bytes
-
-val rune_prefix : nat -> bytes -> bytes
-
-val alphaField : bytes -> nat -> bytes
-
-val stringField : bytes -> nat -> bytes
-
-val digits_fuel : nat -> n -> bytes -> bytes
-
-val digits : n -> bytes
-
-val itoa : z -> bytes
-
-val numericField : z -> nat -> bytes
-
-val is_digit : n -> bool
-
-val digits_val : bytes -> z -> z
-
-val max_int64 : z
-
-val min_int64 : z
-
-val atoi : bytes -> z
-
-val atoi_opt : bytes -> z option
-
-val parseNumField : bytes -> z
-
-val aUTOENROLL : bytes
-
-val eNR : bytes
-
-val render_custom : string -> recval -> bytes option
-
-val render_seg : recval -> seg -> bytes
-
-val render : layout -> recval -> bytes
-
-val units : indexing -> bytes -> bytes list
-
-val sub0 : bytes list -> nat -> nat -> bytes
-
-val two : n -> n -> n
-
-val valid_date : bytes -> bool
-
-val valid_time : bytes -> bool
-
-val validateSettlementDate : bytes -> bytes
-
-val ten_zeros : bytes
-
-val trimRoutingNumberLeadingZero : bytes -> bytes
-
-val conv_str : string -> bytes -> bytes option
-
-val conv_chain : string list -> bytes -> bytes option
-
-val conv_value : string list -> bytes -> value option
-
-val parse_cut : bytes list -> cut -> (string * value) list
-
-val parse : layout -> bytes -> recval
-
-val overlay : recval -> recval -> recval
-
-val l_ADVBatchControl : layout
-
-val l_ADVEntryDetail : layout
-
-val l_ADVFileControl : layout
-
-val l_Addenda02 : layout
-
-val l_Addenda05 : layout
-
-val l_Addenda10 : layout
-
-val l_Addenda11 : layout
-
-val l_Addenda12 : layout
-
-val l_Addenda13 : layout
-
-val l_Addenda14 : layout
-
-val l_Addenda15 : layout
-
-val l_Addenda16 : layout
-
-val l_Addenda17 : layout
-
-val l_Addenda18 : layout
-
-val l_Addenda98 : layout
-
-val l_Addenda98Refused : layout
-
-val l_Addenda99 : layout
-
-val l_Addenda99Contested : layout
-
-val l_Addenda99Dishonored : layout
-
-val l_BatchControl : layout
-
-val l_BatchHeader : layout
-
-val l_EntryDetail : layout
-
-val l_FileControl : layout
-
-val l_FileHeader : layout
-
-val l_IATBatchHeader : layout
-
-val l_IATEntryDetail : layout
-
-val all_layouts : layout list
+val read_struct : bytes list -> fileS option
